@@ -2,6 +2,7 @@
 from .. import runner, spec
 from ..harnesses import HItem
 from ..monitors import OrderMonitor
+from .common import mixed_part, live_part
 
 RULE = ('H-ITEM: the addressed story S1 holds every sequence of <=N distinct item IDs over a pool (prefix pair a/ab) '
         'in three interleaving patterns (items only; a <p> before every item and after the last; a foreign element '
@@ -36,8 +37,11 @@ def run(tier):
             {'label': 'interleaved-pool5-cap4-L2', 'harness': HItem(pool=5, cap=4, max_list=2, patterns=('p-between', 'foreign')), 'monitors': mon},
             {'label': 'pretty-messages', 'harness': HItem(pool=4, cap=3, max_list=2, pretty_msgs=True), 'monitors': mon},
         ]
+    parts.append(mixed_part(tier, mon))
+    parts.append(live_part(tier, mon, spec.STORY_KINDS if 'c02' == 'c01' else spec.ITEM_KINDS))
     return runner.graph_check(
-        'C02', tier, parts, rule=RULE, vacuity=vacuity,
+        'C02', tier, parts, rule=RULE + ' Plus H-MIXED: the same messages in every state reached by one earlier message of ANY of the 24 classes '
+        '(roReplace, roMetadataReplace, roStorySend, ...), as re-read text states and as two-message histories on one live object.', vacuity=vacuity,
         assumptions=['item IDs are only compared for equality (data independence)',
                      'item IDs are unique and non-blank inside the addressed story (they repeat across stories)',
                      'the position of items relative to paragraphs/foreign elements is not part of the property: only the item-ID sequence is compared',
